@@ -300,3 +300,10 @@ mod tests {
         assert_eq!(q.active_seq(), 0);
     }
 }
+
+#[cfg(feature = "__verif-hooks")]
+#[allow(missing_docs, unreachable_pub, dead_code, unused_imports, unused_qualifications)]
+pub mod verif {
+    use super::*;
+    include!(concat!(env!("QUINN_VERIF_HOOKS"), "/proto/cid_queue.rs"));
+}
